@@ -1,7 +1,8 @@
+import Gv.Oracle.Cli
 import Gv.Oracle.Det
 import Gv.Oracle.Dedup
 import Gv.Oracle.Loop
 /-! oracle of property C13: only the handlers it needs -/
 open Gv Gv.Oracle
 
-def main : IO Unit := runOracle [DedupOps.handle, DetOps.handle]
+def main : IO Unit := runOracle [DedupOps.handle, DetOps.handle, CliOps.handle]
